@@ -701,7 +701,14 @@ class Interp:
                 self.ctx.pure_depth += 1
                 a = self.eval(node.body, env)
                 b = self.eval(node.orelse, env)
-                merged = self.bm.ite(self, cb, a, b)
+
+                def pyint(v):
+                    return (isinstance(v, int) and not isinstance(v, bool)) or (is_z3(v) and v.sort() == z3.IntSort())
+
+                def pyfloat(v):
+                    return isinstance(v, (float, Fraction)) or (is_z3(v) and v.sort() == z3.RealSort())
+                # `int(x) if c else float(x)`: merging would forget which python type the value has
+                merged = None if (pyint(a) and pyfloat(b)) or (pyfloat(a) and pyint(b)) else self.bm.ite(self, cb, a, b)
                 if merged is not None:
                     return merged
             except (Unsupported, Raise):
@@ -1026,7 +1033,9 @@ class Interp:
         if self.registry is not None and self.use_specs and not force_body and isinstance(f.node, ast.FunctionDef):
             spec = self.registry.spec_for_call(self, f)
             if spec is not None:
-                return self.registry.call_spec(self, f, spec, args, kwargs)
+                r = self.registry.call_spec(self, f, spec, args, kwargs)
+                if r is not NotImplemented:
+                    return r
         local = self.bind_args(f, args, kwargs)
         env = Env(f.module, parent=f.closure, func=f)
         env.vars = local
